@@ -113,7 +113,7 @@ def runConstOp (op : String) (attrs : Json) (ins : List (Option DT)) : Answer :=
   | "Cast", [some X] =>
     let names := attrNames attrs
     if names.length != 1 then { model := .ofErr .attr, spec := { domain := "mayRefuse" }, tags := ["attr-count"] }
-    else if names != ["to"] then { model := .ofErr .attr, spec := { domain := "mayRefuse" }, tags := ["attr-name"] }
+    else if names != ["to"] then { model := .ofErr .attr, spec := { domain := "mustRefuse" }, tags := ["attr-name"] }
     else
       let to := attrInt attrs "to" 0
       (match X.fl with
@@ -157,7 +157,9 @@ def runConstOp (op : String) (attrs : Json) (ins : List (Option DT)) : Answer :=
   | "ConstantOfShape", [some S] =>
     let names := attrNames attrs
     if names.length > 1 then { model := .ofErr .attr, spec := { domain := "mayRefuse" }, tags := ["attr-count"] }
-    else if names.length == 1 && names != ["value"] then { model := .ofErr .attr, spec := { domain := "mayRefuse" }, tags := ["attr-name"] }
+    else if names.length == 1 && names != ["value"] then
+      -- "unsupported attributes are refused with an error": an attribute of another name must not be ignored
+      { model := .ofErr .attr, spec := { domain := "mustRefuse" }, tags := ["attr-name"] }
     else
       match jsonTensorAttr attrs "value" with
       | none => { model := { status := "unmodelled" } }
